@@ -144,7 +144,8 @@ def run_jobs(scenarios, nproc=None, per_scn_timeout=20.0, tag="job", test="^Test
                 # the process died (panic, fatal): note which scenario was running
                 idx = last + 1
                 if idx < len(parts[st["i"]]):
-                    info["died"].append({"scn": parts[st["i"]][idx]["id"], "rc": p.returncode, "tail": text[-1500:]})
+                    info["died"].append({"scn": parts[st["i"]][idx]["id"], "rc": p.returncode, "tail": text[-1500:],
+                                         "prev": parts[st["i"]][idx - 1]["id"] if idx > 0 else None})
                     if idx + 1 < len(parts[st["i"]]):
                         st["next"] = idx + 1
                         st["p"] = start(st["i"], idx + 1)
@@ -199,8 +200,17 @@ def add_deaths(traces, info):
                                   "rc": dd["rc"], "tail": dd["tail"][-600:], "_c": last["_c"]})
                 break
         else:
-            # nothing was recorded before the death: it cannot be attributed to the engine (most likely the harness itself)
-            info.setdefault("errors", []).append("child process died in scenario %s before recording anything (rc %s): %s" % (dd["scn"], dd["rc"], dd["tail"][-400:]))
+            # Nothing of this scenario was recorded before the death: the process died between two scenarios, i.e. in
+            # something the previous scenario of this child left running. The death is put at the end of that
+            # scenario's last trace; with no previous scenario it cannot be attributed at all (exit 2).
+            prev = [k for k in traces if k[0] == dd.get("prev")] if dd.get("prev") is not None else []
+            if prev:
+                k = prev[-1]
+                last = traces[k][-1]
+                traces[k].append({"ev": "ProcDied", "scn": k[0], "pl": k[1], "tr": k[2], "ep": last.get("ep", 1), "seq": last["seq"] + 1,
+                                  "rc": dd["rc"], "tail": dd["tail"][-600:], "_c": last["_c"], "late": True})
+            else:
+                info.setdefault("errors", []).append("child process died in scenario %s before recording anything (rc %s): %s" % (dd["scn"], dd["rc"], dd["tail"][-400:]))
     return traces
 
 
